@@ -1,6 +1,11 @@
 use std::io;
 use std::ops::{Add, AddAssign, Sub};
 use std::slice::SliceIndex;
+#[cfg(feature = "verif-hooks")]
+use crate::verif_sync::{RwLock, RwLockWriteGuard};
+#[cfg(feature = "verif-hooks")]
+use std::sync::Arc;
+#[cfg(not(feature = "verif-hooks"))]
 use std::sync::{Arc, RwLock, RwLockWriteGuard};
 use std::thread::panicking;
 use std::time::Duration;
